@@ -139,6 +139,16 @@ def out(w):
     return w.new_id()
 
 
+def keeps_list(w, what, seq, call):
+    """The caller's list (its length and the identity of its items) is an operand too."""
+    ids = [id(x) for x in seq] if isinstance(seq, list) else None
+    try:
+        return call()
+    finally:
+        if ids is not None and "C15" in w.props and [id(x) for x in seq] != ids:
+            raise Violation("C15", "operand_changed", "%s changed the list of arrays it was given" % what)
+
+
 NEWDIMS = ["p", "q", "r", "s"]
 
 
@@ -983,7 +993,7 @@ def _align():
     def run(w, s):
         arrs = [w.arr(i) for i in [s["a"], s["b"]] + s.get("others", [])]
         kw = {k: s[k] for k in ("axis", "strict") if k in s}
-        return w.da.align(arrs, join=s["join"], sort=s["sort"], **kw)
+        return keeps_list(w, "align", arrs, lambda: w.da.align(arrs, join=s["join"], sort=s["sort"], **kw))
     return gen, run
 
 
@@ -1035,7 +1045,7 @@ def _stack():
         if s.get("as_dict"):
             data = dict(zip(s["keys"], arrs))
             return w.da.stack(data, axis=s["axis"], keys=list(s["keys"]), align=s["align"], **kw)
-        return w.da.stack(arrs, axis=s["axis"], keys=s.get("keys"), align=s["align"], **kw)
+        return keeps_list(w, "stack", arrs, lambda: w.da.stack(arrs, axis=s["axis"], keys=s.get("keys"), align=s["align"], **kw))
     return gen, run
 
 
@@ -1072,7 +1082,7 @@ def _concatenate():
             arrs.append(w.arr(s["a"]))
         if s.get("tuple"):
             arrs = tuple(arrs)
-        return w.da.concatenate(arrs, axis=s["axis"], align=s["align"], **kw)
+        return keeps_list(w, "concatenate", arrs, lambda: w.da.concatenate(arrs, axis=s["axis"], align=s["align"], **kw))
     return gen, run
 
 
